@@ -18,7 +18,10 @@
 //! sequence of <= 6 kind classes over 7), and extracted LintGroup::lint (cache carried over) vs a real
 //! LintGroup with two transparent rules.  Phase 5 (cases W, fn rules_case): the real UnclosedQuotes and the kind-guard
 //! windows of MergeWords / InflectedVerbAfterTo / AdjectiveOfA vs Model/C12Windows.run_rules; monitor guard_covers.
-use harper_core::linting::{Lint, LintGroup, Linter, LongSentences, PatternLinter};
+//! Phase 6 (cases K, fn comma_case): the real CommaFixes (alone in a LintGroup) vs Model/C12Comma.run_comma on the Document
+//! tokens of P++D and D of every pair, on the stream `comma` and on synthetic token lists (a Parser that hands prepared
+//! tokens to Document::new: commas of the three kinds beside Word / Space / Unlintable / Hostname / ParagraphBreak).
+use harper_core::linting::{Lint, LintGroup, Linter, LongSentences, PatternLinter, Suggestion};
 use harper_core::parsers::{Parser, PlainEnglish};
 use harper_core::patterns::{Pattern, SequencePattern};
 use harper_core::{Dialect, Document, FstDictionary, Punctuation, Quote, Span, Token, TokenKind, TokenStringExt};
@@ -287,6 +290,8 @@ struct Ctx {
     uq: LintGroup,
     /// the guarded window bodies of Tables_c12rules.window_guards: (rule name, guard letters W / S, a group with only it)
     guards: Vec<(String, Vec<char>, LintGroup)>,
+    /// only CommaFixes (the K correspondence: Model/C12Comma.comma_fixes)
+    cf: LintGroup,
 }
 
 fn single_rule_group(dict: &Arc<FstDictionary>, name: &str) -> LintGroup {
@@ -396,6 +401,102 @@ fn rules_case(rep: &mut Report, cx: &mut Ctx, doc: &Document, emit_case: bool) -
     bad
 }
 
+/// the lint id of Model/C12Comma: 1 space-before + 2 Asian + 4 space-after + 8 * suggestion (0 Remove, 1 ReplaceWith [','],
+/// 2 ReplaceWith [',', ' '], 3 InsertAfter [' ']; anything else 9)
+fn comma_id(l: &Lint) -> usize {
+    let mut bits = 0;
+    if l.message.contains("space before a comma") {
+        bits += 1;
+    }
+    if l.message.contains("East Asian commas") {
+        bits += 2;
+    }
+    if l.message.contains("space after a comma") {
+        bits += 4;
+    }
+    let sg = match l.suggestions.as_slice() {
+        [Suggestion::Remove] => 0,
+        [Suggestion::ReplaceWith(v)] if v.as_slice() == [','] => 1,
+        [Suggestion::ReplaceWith(v)] if v.as_slice() == [',', ' '] => 2,
+        [Suggestion::InsertAfter(v)] if v.as_slice() == [' '] => 3,
+        _ => 9,
+    };
+    bits + 8 * sg
+}
+
+/// Phase 6, correspondence case K: the real CommaFixes on this document vs Model/C12Comma.run_comma (the arm table of
+/// Tables_c12rules.comma_arms_raw) on its tokens (class, span, Unlintable flag) and source.
+fn comma_case(rep: &mut Report, cx: &mut Ctx, doc: &Document, always: bool) {
+    let toks = doc.get_tokens();
+    let n_commas = toks.iter().filter(|t| matches!(t.kind, TokenKind::Punctuation(Punctuation::Comma))).count();
+    if n_commas == 0 && !always {
+        return;
+    }
+    let mut line = String::from("K");
+    for t in toks {
+        let u = if matches!(t.kind, TokenKind::Unlintable) { 1 } else { 0 };
+        line.push_str(&format!(" {} {} {} {}", class_code(class_of(&t.kind)), t.span.start, t.span.end, u));
+    }
+    line.push_str(" | ");
+    line.push_str(&cps(doc.get_source()));
+    let cf = &mut cx.cf;
+    match guarded(|| cf.lint(doc)) {
+        Ok(ls) => {
+            rep.count("comma_case:K");
+            if !ls.is_empty() {
+                rep.count("comma_case:K_with_lint");
+            }
+            for l in &ls {
+                rep.count(&format!("comma_case:arm_id_{}", comma_id(l)));
+            }
+            let body: Vec<String> = ls.iter().map(|l| format!("{} {} {}", l.span.start, l.span.end, comma_id(l))).collect();
+            rep.case(&line, &if body.is_empty() { "K -".to_string() } else { format!("K {}", body.join(",")) });
+        }
+        Err(_) => rep.case(&line, "PANIC"),
+    }
+}
+
+/// a Parser that hands a prepared token list to Document::new (the passes of Document::parse still run)
+struct Prepared(Vec<Token>);
+impl Parser for Prepared {
+    fn parse(&self, _source: &[char]) -> Vec<Token> {
+        self.0.clone()
+    }
+}
+
+/// synthetic neighbourhoods of commas: letters W word, S space, `,` `F` (fullwidth) `I` (ideographic) commas, U Unlintable,
+/// H Hostname (another KOther kind), B ParagraphBreak, N Newline, . Period, D Number
+fn comma_synth_case(rep: &mut Report, cx: &mut Ctx, letters: &[char]) {
+    let mut src: Vec<char> = vec![];
+    let mut toks: Vec<Token> = vec![];
+    for c in letters {
+        let (text, kind): (&str, TokenKind) = match c {
+            'W' => ("ab", TokenKind::Word(None)),
+            'S' => (" ", TokenKind::Space(1)),
+            ',' => (",", TokenKind::Punctuation(Punctuation::Comma)),
+            'F' => ("\u{ff0c}", TokenKind::Punctuation(Punctuation::Comma)),
+            'I' => ("\u{3001}", TokenKind::Punctuation(Punctuation::Comma)),
+            'U' => ("\u{82b1}", TokenKind::Unlintable),
+            'H' => ("x.y", TokenKind::Hostname),
+            'B' => ("\n\n", TokenKind::ParagraphBreak),
+            'N' => ("\n", TokenKind::Newline(1)),
+            'D' => ("7", TokenKind::Number(Default::default())),
+            _ => (".", TokenKind::Punctuation(Punctuation::Period)),
+        };
+        let start = src.len();
+        src.extend(text.chars());
+        toks.push(Token { span: Span { start, end: src.len() }, kind });
+    }
+    let text: String = src.iter().collect();
+    let dict = cx.dict.clone();
+    if let Ok(doc) = guarded(|| Document::new(&text, &Prepared(toks.clone()), &dict)) {
+        rep.eval();
+        rep.count("comma_case:synthetic");
+        comma_case(rep, cx, &doc, true);
+    }
+}
+const COMMA_LETTERS: [char; 11] = ['W', 'S', ',', 'F', 'I', 'U', 'H', 'B', 'N', '.', 'D'];
+
 /// the struct rules of shape Merge / ThenRemoveOverlaps (Tables_c12rules.v; C12Main.ro_bodies are their bodies)
 const RO_RULES: [&str; 5] = ["HopHope", "CompoundNouns", "PronounContraction", "CurrencyPlacement", "LetsConfusion"];
 
@@ -419,7 +520,7 @@ impl Ctx {
         }
         let uq = single_rule_group(&dict, "UnclosedQuotes");
         let guards = read_window_guards().into_iter().map(|(n, g)| { let grp = single_rule_group(&dict, &n); (n, g, grp) }).collect();
-        Ctx { dict, keys, warm, fresh_every, since_fresh: 0, pool: None, tiny: tiny_group(), tiny_age: 0, ro, uq, guards }
+        Ctx { dict, keys, warm, fresh_every, since_fresh: 0, pool: None, tiny: tiny_group(), tiny_age: 0, ro, uq, guards, cf: single_rule_group(&FstDictionary::curated(), "CommaFixes") }
     }
     /// Three linters (one per document of a pair) whose chunk caches are never older than `fresh_every`
     /// pairs and never shared between the three documents of a pair.
@@ -823,6 +924,9 @@ fn check_pair(rep: &mut Report, cx: &mut Ctx, p: &str, d: &str, origin: &str) {
             if let Some(what) = rules_case(rep, cx, &doc, emit) {
                 rep.fail("lint_outside_guard", what, pair_json(p, d, origin));
             }
+            if emit {
+                comma_case(rep, cx, &doc, false);
+            }
         }
     }
     // distribution
@@ -1113,6 +1217,32 @@ fn gen_windows(r: &mut Rng) -> (String, String) {
     (format!("{p}\n\n"), d.trim_start_matches('\n').to_string())
 }
 
+const COMMA_CLAUSES: &[&str] = &[
+    "foo ,bar", "foo , bar", "foo,bar", "foo\u{ff0c}bar", "foo \u{ff0c}bar", "foo \u{3001} bar", "foo\u{ff0c} bar", "cout\u{3001}endl\u{3001}string",
+    "\u{82b1}\u{3001} \u{679c}\u{3001}\u{53f6}\u{ff0c}\u{6316}\u{6398}", "x \u{3001}\u{82b1}", "\u{82b1}\u{ff0c}y", "1,000", "a, b", "a ,", ", b", "a,\nb", "www.x.com\u{ff0c}y",
+    "a@b.co\u{3001}c", "well ,then", "7\u{ff0c}8", "he said , she left", "so\u{3001}", "\u{ff0c}", ",",
+];
+const COMMA_HEADS: &[&str] = &[
+    ",b", " ,b", "\u{ff0c}b", "\u{3001} b", " \u{3001}b", ", b", "\u{82b1}\u{ff0c}", "b ,c", "\u{ff0c}", " \u{ff0c} b", "b\u{ff0c}c", "b,c", ",\u{82b1}", "\u{3001}\u{82b1}",
+];
+/// (P, D) around CommaFixes: P from COMMA_CLAUSES, sometimes with a comma right before its terminator (so that toks.3 /
+/// toks.4 of that comma are the terminator and P's closing break); D opens with a comma of each kind as its first or second
+/// token (toks.0 / toks.1 absent alone, the ParagraphBreak glued)
+fn gen_comma(r: &mut Rng) -> (String, String) {
+    let mk = |r: &mut Rng, n: usize| -> String {
+        (0..n).map(|_| if r.chance(1, 6) { gen::clean_sentence(r) } else { r.s(COMMA_CLAUSES).to_string() }).collect::<Vec<_>>().join(r.s(&[" ", " ", "  ", "\n"]))
+    };
+    let n = r.range(1, 3);
+    let mut p = strip_quotes(&mk(r, n));
+    if r.chance(1, 3) {
+        p.push_str(r.s(&[",", " ,", "\u{ff0c}", " \u{3001}", "x\u{ff0c}", " y,"]));
+    }
+    p.push_str(r.s(&[".", "!", "?"]));
+    let n = r.range(0, 2);
+    let d = format!("{}{}{}", if r.chance(3, 4) { r.s(COMMA_HEADS) } else { "" }, if r.chance(1, 2) { " " } else { "" }, mk(r, n));
+    (format!("{p}\n\n"), d.trim_start_matches('\n').to_string())
+}
+
 /// (P, D) in which ONE clause with a pattern-rule finding occurs twice with a different amount of leading
 /// whitespace: behind another sentence of P and at the very start of D, or the other way round (seeded change
 /// c12-2: a chunk-cache key that ignores the leading whitespace while the cached spans do not).
@@ -1150,6 +1280,10 @@ fn replay_input(rep: &mut Report, cx: &mut Ctx, v: &Value) {
         "tokens" => {
             let classes: Vec<char> = s("classes").chars().collect();
             synth_case(rep, &classes, v["zero_width"].as_bool().unwrap_or(false));
+        }
+        "comma" => {
+            let letters: Vec<char> = s("letters").chars().collect();
+            comma_synth_case(rep, cx, &letters);
         }
         _ => check_pair(rep, cx, &s("p"), &s("d"), "replay"),
     }
@@ -1256,6 +1390,16 @@ pub fn run(a: &Args, corpus: &[Value]) {
         let (p, d) = gen_windows(&mut r);
         check_pair(&mut rep, &mut cx, &p, &d, "windows");
     }
+    for _ in 0..a.scale(100, 2500) {
+        let (p, d) = gen_comma(&mut r);
+        check_pair(&mut rep, &mut cx, &p, &d, "comma");
+    }
+    // synthetic comma neighbourhoods (K cases): random sequences, commas forced in
+    for _ in 0..a.scale(1500, 20000) {
+        let n = r.range(1, 9);
+        let ls: Vec<char> = (0..n).map(|_| if r.chance(1, 3) { *r.pick(&[',', 'F', 'I']) } else { *r.pick(&COMMA_LETTERS) }).collect();
+        comma_synth_case(&mut rep, &mut cx, &ls);
+    }
     for _ in 0..a.scale(250, 4000) {
         let (p, d, p2, d2) = (gen_p(&mut r), gen_d(&mut r), gen_p(&mut r), gen_d(&mut r));
         check_edit(&mut rep, &mut cx, &p, &d, &p2, &d2, "generated");
@@ -1300,6 +1444,37 @@ pub fn run(a: &Args, corpus: &[Value]) {
             }
         }
         rep.extra.insert("exhaustive_kind_sequences_le6_over_7_classes".into(), json!(count));
+        // exhaustive: every comma neighbourhood x0 x1 COMMA x3 x4 over 8 neighbour classes (absent included: shorter lists)
+        let nb = ['W', 'S', 'U', 'H', 'B', ',', 'F', '.'];
+        let mut count2 = 0u64;
+        for c in [',', 'F', 'I'] {
+            for back in 0..=2usize {
+                for fwd in 0..=2usize {
+                    let total = back + fwd;
+                    let mut idx = vec![0usize; total];
+                    loop {
+                        let mut ls: Vec<char> = idx[..back].iter().map(|i| nb[*i]).collect();
+                        ls.push(c);
+                        ls.extend(idx[back..].iter().map(|i| nb[*i]));
+                        comma_synth_case(&mut rep, &mut cx, &ls);
+                        count2 += 1;
+                        let mut k = 0;
+                        while k < total {
+                            idx[k] += 1;
+                            if idx[k] < nb.len() {
+                                break;
+                            }
+                            idx[k] = 0;
+                            k += 1;
+                        }
+                        if k == total {
+                            break;
+                        }
+                    }
+                }
+            }
+        }
+        rep.extra.insert("exhaustive_comma_neighbourhoods".into(), json!(count2));
     }
     rep.extra.insert("rules_in_group".into(), json!(cx.keys.len()));
     rep.finish();
